@@ -188,7 +188,7 @@ type run struct {
 
 	shCall, shRet atomic.Uint64
 	shPanicked    atomic.Bool
-	shIssued      bool
+	shIssued      atomic.Bool
 
 	workers sync.Map // goroutine id -> *workerState (touched by its owner only)
 
@@ -207,11 +207,17 @@ type run struct {
 	windowHeld bool
 	blind      string // non-empty: workers not identifiable, run is undecidable
 
-	flags       int       // flags actually given to Shutdown (sp.Flags, or forced IgnorePendingTimeouts after a stall, see waitDue)
-	flushForced bool      // the due elements did not come out while far-future ones were pending: flushed to decide by delivery order
-	endAt       time.Time // instant at which structural quiescence was established
-	together    []*item   // elements that were in the heap together (all workers held at gates, none of them started)
-	holders     int       // workers still holding a (far-future) element inside Poll at quiescence
+	flags        int       // flags actually given to Shutdown (sp.Flags, or forced IgnorePendingTimeouts after a stall, see waitDue)
+	flushForced  bool      // the due elements did not come out while far-future ones were pending: flushed to decide by delivery order
+	endAt        time.Time // instant at which structural quiescence was established
+	together     []*item   // elements that were in the heap together (all workers held at gates, none of them started)
+	deadlock     string    // fingerprint of a structurally decided Shutdown dead-lock
+	deadText     string
+	deadSig      string
+	deadSeen     int
+	guarded      bool
+	deadCandSeen atomic.Bool // set by the monitor of a random run
+	holders      int         // workers still holding a (far-future) element inside Poll at quiescence
 }
 
 func newRun(sp spec) *run {
@@ -475,10 +481,9 @@ func (r *run) cancelID(id int) bool {
 
 // shutdownAsync calls Shutdown in its own goroutine (Executor.Shutdown may wait for callbacks the harness still gates).
 func (r *run) shutdownAsync() {
-	if r.shIssued {
+	if !r.shIssued.CompareAndSwap(false, true) {
 		return
 	}
-	r.shIssued = true
 	started := make(chan struct{})
 	go r.doShutdown(started)
 	<-started
@@ -519,7 +524,57 @@ type obs struct {
 	clients    int
 	shutdown   int // 0: no Shutdown goroutine, 1: parked in WaitGroup.Wait inside Executor.Shutdown, 2: otherwise alive
 	sig        string
+
+	// lock waits: goroutines of this run parked in sync.(*Mutex).Lock / sync.(*RWMutex).Lock / RLock below a runtime/timed frame
+	mutexShutdown bool // the Shutdown caller (exported Shutdown frame) is one of them
+	mutexAdd      int  // callers of the exported Add / ExecuteAt / ExecuteAfter
+	mutexPoll     int  // callers of the exported Poll (workers, pollers)
+	mutexOther    int  // Cancel, Size, ...
+	busy          int  // goroutines of this run touching the queue that are NOT parked for good (runnable, select/timer, gate, sleep, ...)
 }
+
+// deadCand: the Shutdown caller and at least one other caller are parked in lock acquisitions.
+func (o obs) deadCand() bool { return o.mutexShutdown && o.mutexAdd+o.mutexPoll+o.mutexOther > 0 }
+
+// dead: ... and every other goroutine of the run that can touch the queue is parked where only one of them could release it
+// (sync.Cond.Wait under Poll, WaitGroup.Wait under Executor.Shutdown). A mutex wait involves no timer: with nobody
+// runnable, nobody can ever unlock, signal or broadcast.
+func (o obs) dead() bool { return o.deadCand() && o.busy == 0 }
+
+func (o obs) deadFP() string {
+	switch {
+	case o.mutexAdd > 0:
+		return "shutdown/deadlock-with-concurrent-add"
+	case o.mutexPoll > 0:
+		return "shutdown/deadlock-with-concurrent-poll"
+	}
+	return "shutdown/deadlock-with-concurrent-call"
+}
+
+// hasTimedMethod: an exported method of package runtime/timed with one of the names is on the stack (any receiver, any depth).
+func hasTimedMethod(g gdump.G, names ...string) bool {
+	for _, f := range g.Frames {
+		if !strings.Contains(f, timedPkgFrame) {
+			continue
+		}
+		for _, n := range names {
+			if strings.HasSuffix(f, ")."+n) {
+				return true
+			}
+		}
+	}
+	return false
+}
+
+func inMutexWait(g gdump.G) bool {
+	switch g.State {
+	case "sync.Mutex.Lock", "sync.RWMutex.Lock", "sync.RWMutex.RLock":
+		return g.Has(timedPkgFrame) && (g.Has("sync.(*Mutex).Lock") || g.Has("sync.(*RWMutex).Lock") || g.Has("sync.(*RWMutex).RLock"))
+	}
+	return false
+}
+
+var errDeadCandidate = fmt.Errorf("deadlock candidate")
 
 func (o obs) allParked() bool { return o.parked == o.nWorkers }
 func (o obs) allInPoll() bool { return o.pollCond+o.pollSelect+o.pollOther == o.nWorkers }
@@ -564,6 +619,22 @@ func (r *run) observe() obs {
 	for _, g := range gs {
 		if r.base[g.ID] || g.State == "running" {
 			continue
+		}
+		if touches := g.Has(timedPkgFrame) || g.Has("main.(*run).client") || g.Has("main.(*run).poller") || g.Has("main.(*run).doShutdown"); touches {
+			switch {
+			case inMutexWait(g) && g.Has("main.(*run).doShutdown") && hasTimedMethod(g, "Shutdown"):
+				o.mutexShutdown = true
+			case inMutexWait(g) && hasTimedMethod(g, "Add", "ExecuteAt", "ExecuteAfter"):
+				o.mutexAdd++
+			case inMutexWait(g) && hasPoll(g):
+				o.mutexPoll++
+			case inMutexWait(g):
+				o.mutexOther++
+			case g.State == "sync.Cond.Wait" && hasPoll(g):
+			case g.State == "semacquire" && g.Has("sync.(*WaitGroup).Wait") && hasTimedMethod(g, "Shutdown"):
+			default:
+				o.busy++
+			}
 		}
 		switch {
 		case g.Has("main.(*run).doShutdown"):
@@ -621,6 +692,35 @@ func (r *run) observe() obs {
 	return o
 }
 
+// checkDead aborts a scripted schedule (panic, recovered by guard) when the Shutdown caller and another caller sit in lock
+// acquisitions in consecutive snapshots: the remaining steps could block the driver itself. The verdict is taken in finish.
+func (r *run) checkDead(o obs) {
+	if o.deadCand() && o.sig == r.deadSig {
+		if r.deadSeen++; r.deadSeen >= 2 && r.guarded {
+			panic(errDeadCandidate)
+		}
+		return
+	}
+	r.deadSeen = 0
+	if o.deadCand() {
+		r.deadSig = o.sig
+	}
+}
+
+func (r *run) guard(f func()) {
+	r.guarded = true
+	defer func() {
+		r.guarded = false
+		if p := recover(); p != nil {
+			if p != errDeadCandidate {
+				panic(p)
+			}
+			r.patterns["schedule-aborted-on-deadlock-candidate"] = true
+		}
+	}()
+	f()
+}
+
 func pace(i int) {
 	if i < 10 {
 		runtime.Gosched()
@@ -634,6 +734,7 @@ func (r *run) settle(pred func(o obs) bool) obs {
 	last := ""
 	for i := 0; ; i++ {
 		o := r.observe()
+		r.checkDead(o)
 		if o.allParked() && o.clients == 0 && (pred == nil || pred(o)) {
 			if o.sig == last {
 				return o
@@ -653,6 +754,7 @@ func (r *run) waitStarted(it *item) bool {
 			return true
 		}
 		o := r.observe()
+		r.checkDead(o)
 		if o.allParked() && o.pollSelect == 0 && it.starts.Load() == 0 {
 			return false
 		}
@@ -664,6 +766,7 @@ func (r *run) waitStarted(it *item) bool {
 func (r *run) waitHeld() bool {
 	for i := 0; ; i++ {
 		o := r.observe()
+		r.checkDead(o)
 		if o.allParked() {
 			if o.pollSelect >= 1 && r.size() == 0 {
 				return true
@@ -683,17 +786,33 @@ func (r *run) waitHeld() bool {
 // From then on nothing can be delivered any more.
 func (r *run) finish() {
 	var o obs
+	deadKey, deadN := "", 0
 	for i := 0; ; i++ {
 		o = r.observe()
 		if o.clients == 0 && o.shutdown != 2 && (o.allIdle() || r.onlyFarFutureHeld(o)) {
 			break
+		}
+		// Dead-lock of Shutdown with a concurrent caller: decided only when the same picture (who waits for which kind of
+		// lock, everybody else parked for good, nobody runnable) is seen in consecutive consistent snapshots.
+		if key := fmt.Sprintf("%v|%d|%d|%d|%s", o.mutexShutdown, o.mutexAdd, o.mutexPoll, o.mutexOther, o.sig); o.dead() && key == deadKey {
+			if deadN++; deadN >= 2 {
+				r.deadlock = o.deadFP()
+				r.deadText = fmt.Sprintf("the Shutdown caller is parked in a lock acquisition inside runtime/timed together with %d Add/ExecuteAt caller(s), %d Poll caller(s) and %d other caller(s); every other goroutine of the run is parked in sync.Cond.Wait under Poll or gone, nothing is runnable and no timer is involved: none of these calls can ever return and the elements still queued are never delivered", o.mutexAdd, o.mutexPoll, o.mutexOther)
+				break
+			}
+		} else {
+			deadKey, deadN = key, 0
 		}
 		pace(i)
 	}
 	r.hang = o.shutdown == 1 && o.allIdle()
 	r.holders = o.pollSelect
 	r.endAt = time.Now()
-	r.sizeAtEnd = r.size()
+	if r.deadlock == "" {
+		r.sizeAtEnd = r.size()
+	} else {
+		r.hang, r.holders, r.sizeAtEnd = false, 0, -1 // Size() would block on the dead-locked heap lock
+	}
 	r.evaluate()
 }
 
@@ -753,6 +872,7 @@ func (r *run) waitDue() (stalled bool) {
 			return false
 		}
 		o := r.observe()
+		r.checkDead(o)
 		key := fmt.Sprintf("%s/%d", o.sig, missing)
 		if o.allParked() && o.inCallback == 0 && key == last {
 			if same++; same >= 3 {
@@ -825,6 +945,9 @@ func (r *run) evaluate() {
 			byID[it.id] = append(byID[it.id], it)
 		}
 	}
+	if r.deadlock != "" {
+		r.violate(r.deadlock, "%s (kind %s, workers %d, Shutdown flags %s, Shutdown call tick %d never returned)", r.deadText, kind, r.sp.Workers, flagNames(r.flags), shCall)
+	}
 	if n := r.bogus.Load(); n > 0 {
 		r.violate(kind+"/delivered-unknown-value", "Poll returned %d value(s) that were never added", n)
 	}
@@ -880,6 +1003,10 @@ func (r *run) evaluate() {
 			} else if it.far > 0 || it.far == 0 && it.offUs > 0 {
 				r.cnt["not_early_confirmed"]++
 			}
+		}
+		if it.schedRet.Load() == 0 { // the call never returned (only possible in a decided dead-lock)
+			r.cnt["calls_never_returned"]++
+			continue
 		}
 		if !it.accepted.Load() {
 			r.cnt["rejected_adds"]++
